@@ -3,6 +3,8 @@
 package transport
 
 import (
+	"fmt"
+	"time"
 	"sync"
 	"testing"
 	"testing/synctest"
@@ -125,6 +127,12 @@ func vWriteQuotaRun(cfg []int64, ops [][]int64) (obs [][]int64, nt bool, tags []
 }
 
 func vWriteQuotaExec(cfg []int64, ops [][]int64) (obs [][]int64, nt bool, tags []string) {
+	// real-time bound for one case: a hung or spinning implementation is reported at once
+	// instead of after the go test timeout
+	wd := time.AfterFunc(60*time.Second, func() {
+		panic(fmt.Sprintf("verif WriteQuota: case did not finish within 60s (hang or livelock in the implementation) cfg=%v nops=%d", cfg, len(ops)))
+	})
+	defer wd.Stop()
 	var pv any
 	synctest.Test(vWriteQuotaT, func(t *testing.T) {
 		defer func() {
